@@ -72,6 +72,12 @@ def expressions(tier: str, seed: int) -> list[tuple[str, str]]:
         "'z'..'a' | \"x\"",
         "'a'..'z' | 'c'..'d' | \"_\"",
         "'!'..'~' | ASCII_DIGIT | \" \"",
+        # case-insensitive literals whose Unicode case mappings reach into ASCII (KELVIN SIGN -> k, I WITH DOT -> i +
+        # U+0307, LONG S -> S): pest ignores ASCII case only, also inside a squashed choice
+        "^\"\\u{212A}\" | \"x\"",
+        "^\"\\u{130}\" | \"x\"",
+        "^\"\\u{17F}\" | '0'..'9'",
+        "^\"\\u{212A}m\" | \"xy\" | \"q\"",
     ]
     n_mix = 40 if tier == "thorough" else 3
     for _ in range(n_mix):
